@@ -16,6 +16,7 @@ EXPLANATION = (
     "domain(x) must store a fresh list (C12.COPY-FRESH, C12.DOMAIN-FRESH: object identity in the symbolic heap); "
     "getters report the lists rescale used (C12.REPORTS); no hidden per-instance or module state (C12.STATE). "
     "Decides these structural necessary conditions, not floating-point error magnitudes."
+    '  The float-exact rewriting knows sign symmetry and commutativity (both exact) and inlines derived locals of the enclosing function.'
 )
 ASSUMPTIONS = ["float arithmetic obeys the listed exact identities for finite operands", "domain end points distinct (the property's non-degenerate case)"]
 
